@@ -187,19 +187,26 @@ P("C10", "proof", "Lean 4 theorems for Unix (laws F/R + append lemma) + model/co
   modules=["TypedPathVerif.Props.C10b"],
   rule=NONTRIV + "pairs (path, every byte-prefix and suffix of it, re-spellings, random others); non-trivial = proper non-empty component prefix", design_ref="§5 C10")
 
-P("C11", "proof", "Lean 4 theorems for Unix (render lemma: pushing the folded components re-parses to them) + model/code correspondence; Windows by fold oracle",
+P("C11", "proof", "Lean 4 theorems for both encodings (render lemma: pushing the folded components re-parses to them; Unix append lemma; Windows append lemma on stable prefixes) + model/code correspondence; verbatim-prefixed Windows paths by fold oracle",
   "normFold in the model is literally the documented scan (drop `.`; `..` cancels the nearest preceding normal "
   "component, else vanishes; prefix and root kept). Proved in Lean for every Unix byte string: the normalised bytes "
   "parse to exactly that fold of the input's components (unix_normalize_comps, via render_shape and the Unix append "
   "lemma), they contain no `.` and no `..` (unix_normalize_no_dots), the path is rooted exactly when the input is "
-  "(unix_normalize_keeps_root), and normalising again returns the same bytes (unix_normalize_idempotent).",
-  "Partial: for Windows (prefix kept, primary separator only, idempotence) the render lemma needs the Windows append "
-  "lemma, which is not proved; those clauses are decided by the oracle (fold computed independently on the "
+  "(unix_normalize_keeps_root), and normalising again returns the same bytes (unix_normalize_idempotent). "
+  "Proved in Lean for every Windows path that does not start like a prefix or has a complete disk / device-namespace / "
+  "UNC prefix, and whose names contain no `:`: the same four statements (C11b.win_normalize_comps, "
+  "win_normalize_no_dots, win_normalize_keeps_head — prefix and root are kept —, win_normalize_idempotent, byte for byte).",
+  "Partial: Windows paths with a verbatim prefix (`push` rebuilds them from components on every step) and paths that "
+  "start like a prefix without forming a complete one are decided by the oracle (fold computed independently on the "
   "implementation's components, second normalisation compared byte for byte, separator scan) on a component-level "
-  "domain and long random `.`/`..` mixes. absolutize = join onto cwd then normalize: oracle for absolute inputs only. "
-  "Model=code by differential testing.",
+  "domain and long random `.`/`..` mixes. The colon hypothesis is real: normalize(`a\\C:`) pushes `C:` back as a "
+  "drive (names with `:` are invalid on Windows, so this is outside 'well-formed'). absolutize = join onto cwd then "
+  "normalize: oracle for absolute inputs only. Model=code by differential testing.",
   theorems=["TP.C11.unix_normalize_comps", "TP.C11.unix_normalize_no_dots", "TP.C11.unix_normalize_keeps_root",
-            "TP.C11.unix_normalize_idempotent", "TP.C11.render_shape", "TP.C11.normFold_comps_shape"],
+            "TP.C11.unix_normalize_idempotent", "TP.C11.render_shape", "TP.C11.normFold_comps_shape",
+            "TP.C11b.win_normalize_comps", "TP.C11b.win_normalize_no_dots", "TP.C11b.win_normalize_keeps_head",
+            "TP.C11b.win_normalize_idempotent", "TP.C11b.pushAll_names", "TP.C11b.normFold_pre"],
+  modules=["TypedPathVerif.Props.C11b"],
   rule=NONTRIV + "all strings over {sep, .., ., a} up to 6 tokens x prefixes, long random mixes; non-trivial = contains `.` or `..` and >= 2 components", design_ref="§5 C11")
 
 P("C12", "proof", "Lean 4 theorems (law B; list lemma on the dot split) + model/code correspondence; replacement clause by oracle",
